@@ -29,6 +29,13 @@ GenV = namedtuple("GenV", "site items")  # a one-shot iterator
 CONSUMERS = ("list", "tuple", "set", "frozenset", "sorted", "dict", "sum", "any", "all", "max", "min", "enumerate", "zip", "map", "filter", "reversed")
 MAX_LEN = 6
 MAX_ALLOC = 12
+SCENARIO_LIMIT = 8  # sizes compared with a constant >= this are beyond what the small scenarios say anything about
+
+
+class LenV(namedtuple("LenV", "n")):
+    """len() of an exact collection of the scenario: the number n, remembered to be a *size* so that a comparison with
+    a large constant (a batch limit, a threshold) is not decided from the scenario's two or three elements."""
+
 
 
 def distinct(a, b):
@@ -171,6 +178,8 @@ class ExactCollections:
         return self.alloc(state, node, "dict", d)
 
     def truth(self, v, state=None):
+        if isinstance(v, LenV):
+            return v.n != 0
         if isinstance(v, Ref):
             c = content(v, state) if state is not None else None
             return (len(c.items) > 0) if c is not None else None
@@ -181,9 +190,16 @@ class ExactCollections:
         return super().truth(v, state)
 
     def never_none(self, v):
-        return isinstance(v, (Ref, DictV, Bound, GenV)) or super().never_none(v)
+        return isinstance(v, (Ref, DictV, Bound, GenV, LenV)) or super().never_none(v)
 
     def compare(self, node, op, l, r, state):
+        if isinstance(l, LenV) or isinstance(r, LenV):
+            other = r if isinstance(l, LenV) else l
+            a = Const(l.n) if isinstance(l, LenV) else l
+            b = Const(r.n) if isinstance(r, LenV) else r
+            if isinstance(other, Const) and isinstance(other.v, int) and not isinstance(other.v, bool) and abs(other.v) >= SCENARIO_LIMIT and isinstance(op, (ast.Lt, ast.LtE, ast.Gt, ast.GtE, ast.Eq, ast.NotEq)):
+                return TOP  # a size threshold beyond the scenario: both outcomes, marked imprecise by refine_compare
+            return super().compare(node, op, a, b, state)
         if isinstance(op, (ast.In, ast.NotIn)):
             seq = self._seq(r, state) if not isinstance(r, GenV) else None
             if seq is not None:
@@ -195,7 +211,16 @@ class ExactCollections:
             return Const((l == r) if isinstance(op, ast.Is) else (l != r))
         return super().compare(node, op, l, r, state)
 
+    def refine_compare(self, node, op, lexpr, l, rexpr, r, branch, state):
+        if isinstance(l, LenV) or isinstance(r, LenV):
+            return self.mark_imprecise(state, node)
+        return super().refine_compare(node, op, lexpr, l, rexpr, r, branch, state)
+
     def binop_s(self, node, l, r, state):
+        if isinstance(l, LenV):
+            l = Const(l.n)
+        if isinstance(r, LenV):
+            r = Const(r.n)
         if isinstance(node.op, ast.Add):
             if isinstance(l, TupleV) and isinstance(r, TupleV):
                 return TupleV(l.items + r.items), state
@@ -356,7 +381,19 @@ class ExactCollections:
             if f.id == "len" and len(args) == 1:
                 seq = self._seq(args[0], state)
                 if seq is not None:
-                    return ok(Const(len(seq)))
+                    return ok(LenV(len(seq)))
+            if f.id == "range" and 1 <= len(args) <= 3 and all(isinstance(a, (Const, LenV)) and isinstance(a.v if isinstance(a, Const) else a.n, int) for a in args):
+                nums = [a.v if isinstance(a, Const) else a.n for a in args]
+                beyond = any(isinstance(a, LenV) for a in args) and any(isinstance(a, Const) and abs(a.v) >= SCENARIO_LIMIT for a in args)
+                try:
+                    vals = tuple(range(*nums))
+                except (ValueError, TypeError):
+                    return None
+                if len(vals) > MAX_LEN:
+                    return ok(TOP)
+                # a stride / bound far larger than the collections of the scenario: what happens for a collection
+                # that large is not what is being explored
+                return ok(TupleV(tuple(Const(x) for x in vals)), self.mark_imprecise(state, node) if beyond else state)
             if f.id == "tuple" and len(args) <= 1:
                 if not args:
                     return ok(TupleV(()))
